@@ -355,6 +355,8 @@ def gen_sub_history(rng, nops):
     for _ in range(nops):
         r = rng.below(100)
         nm = rng.choice(SUB_NAMES) if rng.chance(94, 100) else rng.choice(BAD)
+        if nm == "":
+            nm = "bad:name"        # "sub/" is the path of the directory itself (split_path trims '/'): not a name of this layer
         if r < 6:
             ops.append(("clock", 1980 + rng.below(128), 1 + rng.below(12), 1 + rng.below(28), rng.below(24), rng.below(60), rng.below(60), rng.below(1000)))
         elif r < 45 or not live:
